@@ -192,6 +192,19 @@ func genHistory(t *rapid.T, o jGenOpts) (*History, map[string]int) {
 	h := &History{}
 	ops := map[string]int{}
 	day := int64(1_700_006_400) // 2023-11-15T00:00:00Z
+	maxStops := 5
+	if rapid.IntRange(0, 19).Draw(t, "sizeClass") == 0 {
+		n := rapid.SampledFrom([]int{17, 33, 70}).Draw(t, "sizeN")
+		switch rapid.IntRange(0, 2).Draw(t, "sizeWhat") {
+		case 0:
+			o.MaxTrips = n
+		case 1:
+			o.MaxFeeds = n
+		default:
+			maxStops = n
+		}
+		ops["size-class"]++
+	}
 	nT := rapid.IntRange(1, o.MaxTrips).Draw(t, "nTrips")
 	suffixes := []string{"_A..N", "_A..S", "_1..N03R", "_", "_GS.N01R"}
 	for i := 0; i < nT; i++ {
@@ -207,7 +220,7 @@ func genHistory(t *rapid.T, o jGenOpts) (*History, map[string]int) {
 		suffix := rapid.SampledFrom(suffixes).Draw(t, "suffix")
 		d.ID = fmt.Sprintf("%06d%s", rapid.SampledFrom([]int{0, 6000, 6001, 143950}).Draw(t, "origin"), suffix)
 		if !o.Collisions {
-			d.ID = fmt.Sprintf("%06d%s%d", 1000*i, suffix, i) // distinct suffix per trip
+			d.ID = fmt.Sprintf("%06d%s%d", (1000*i)%600000, suffix, i) // distinct suffix per trip
 		} else if i > 0 && rapid.IntRange(0, 2).Draw(t, "collide") == 0 {
 			// same start instant and suffix as an earlier trip, but a different identifier: the UIDs collide
 			e := h.Pool[rapid.IntRange(0, len(h.Pool)-1).Draw(t, "collideWith")]
@@ -272,7 +285,7 @@ func genHistory(t *rapid.T, o jGenOpts) (*History, map[string]int) {
 			}
 			switch op := rapid.IntRange(0, 9).Draw(t, "stopOp"); {
 			case len(ids) == 0 || op == 0: // fresh list
-				n := rapid.IntRange(0, 5).Draw(t, "nStops")
+				n := rapid.IntRange(0, maxStops).Draw(t, "nStops")
 				ids = nil
 				for i := 0; i < n; i++ {
 					ids = append(ids, jStopPool[rapid.IntRange(0, len(jStopPool)-1).Draw(t, "stop")])
